@@ -32,7 +32,7 @@
     For w = 0 (include_boss) both directions are the SAME ordered channel rank 0 -> rank 0 and both the
     worker's [irecv(boss, MPI_ANY_TAG)] and the master's [irecv(worker, Pending)] are posted on rank 0
     for source 0; MPI matches an incoming message with the earliest posted receive whose (source, tag)
-    admits it, and a receive with the earliest such message (non-overtaking).  [wild_match] and
+    accepts it, and a receive with the earliest such message (non-overtaking).  [wild_match] and
     [pend_match] below implement exactly this rule; [pend_older] records the posting order of the two
     receives.  Because the rule is deterministic given the order of posts and sends it may be evaluated
     lazily, at the time of the test() that reports the completion.
@@ -156,7 +156,7 @@ Definition wild_match (s : sys) (w : wid) : option (msg * list msg) :=
       | m :: l => Some (m, l)
       | [] => None
       end
-    else (* the wildcard is the oldest posted receive that admits anything: first message *)
+    else (* the wildcard is the oldest posted receive that accepts anything: first message *)
       match chan s w with m :: l => Some (m, l) | [] => None end
   else take_first not_pend (chan s w).   (* distinct ranks: only what was sent to the worker *)
 
